@@ -175,6 +175,15 @@ TagKw == [S |-> "struct", I |-> "struct", E |-> "enum", U |-> "union", Znew |-> 
 TagComplete == [S |-> TRUE, I |-> FALSE, E |-> TRUE, U |-> TRUE, Znew |-> FALSE]
 NewTagHere(p, f) == p # "file" /\ (f.body \/ f.use = "decl")
 
+(* 6.7.2.2 (C23): an enumerator of an enum with fixed underlying type must be representable in that type.  The VALUE of the  *)
+(* constant expression counts, whatever its type: 0xffffffffffffffffUL is 2^64-1, not -1.                                      *)
+FixBits(ub) == CASE ub \in {"signed char", "unsigned char"} -> 8 [] ub = "short" -> 16 [] ub \in {"int", "unsigned"} -> 32 [] OTHER -> 64
+FixSigned(ub) == ub \notin {"unsigned char", "unsigned"}
+FixRepresentable(f) ==
+  IF f.k = -1 THEN TRUE
+  ELSE IF ~f.neg THEN MagLe(f.k, f.d, IF FixSigned(f.ub) THEN FixBits(f.ub) - 1 ELSE FixBits(f.ub), -1)
+  ELSE FixSigned(f.ub) /\ MagLe(f.k, f.d, FixBits(f.ub) - 1, 0)
+
 (* uses the value of a long double object (cproc cannot load/store/compute 16-byte floats) *)
 LdUse(f) ==
   \/ f.form \in {"bin", "asg"} /\ "gld" \in {f.l, f.r}
@@ -340,6 +349,7 @@ Bad(b, p, f) ==
   R_tag_kind            |-> fm = "tag" /\ f.tag # "Znew" /\ f.kw # TagKw[f.tag] /\ ~NewTagHere(p, f),
   R_tag_redefinition    |-> fm = "tag" /\ f.body /\ p = "file" /\ f.kw = TagKw[f.tag] /\ TagComplete[f.tag],
   R_enum_nonconst       |-> fm = "enum" /\ \E i \in DOMAIN f.items : f.items[i].v \in {"gi", "1.5"},
+  R_enum_fixed_range    |-> fm = "enumfix" /\ ~FixRepresentable(f),
   R_enum_range          |-> fm = "enum" /\ f.ub = "" /\ \E i \in DOMAIN f.items : f.items[i].v \in {"max_u64", "max_i64"},
   R_dup_enumerator      |-> fm = "enum" /\ DupNames({<<i, 0, f.items[i].n>> : i \in DOMAIN f.items}),
   R_empty_declaration   |-> fm = "misc" /\ f.kind = "toplevel_semi" /\ p = "file",
@@ -661,6 +671,17 @@ Wit == [
   R_tag_kind |-> {FTag("union", "S", FALSE, "ptr"), FTag("struct", "U", FALSE, "ptr"), FTag("struct", "E", FALSE, "ptr")},
   R_tag_redefinition |-> {FTag("struct", "S", TRUE, "decl"), FTag("enum", "E", TRUE, "decl"), FTag("union", "U", TRUE, "ptr")},
   R_enum_nonconst |-> {FEnum(<<En("ZA", "gi")>>), FEnum(<<En("ZA", "1.5")>>), FEnum(<<En("ZA", "3"), En("ZB", "gi")>>)},
+  R_enum_fixed_range |-> {
+     FEnumFix("int", FALSE, 64, -1, "ulong", FALSE), FEnumFix("int", FALSE, 63, 0, "ulong", FALSE), FEnumFix("int", FALSE, 64, -3, "ulong", FALSE),
+     FEnumFix("int", FALSE, 31, 0, "unsigned", FALSE), FEnumFix("int", FALSE, 31, 0, "long", FALSE), FEnumFix("int", TRUE, 31, 1, "long", FALSE),
+     FEnumFix("int", FALSE, 32, -1, "unsigned", FALSE), FEnumFix("int", FALSE, 64, -1, "ulong", TRUE),
+     FEnumFix("long", FALSE, 63, 0, "ulong", FALSE), FEnumFix("long", FALSE, 64, -1, "ulong", FALSE), FEnumFix("long", FALSE, 63, 0, "ulong", TRUE),
+     FEnumFix("long long", FALSE, 63, 0, "ulong", FALSE), FEnumFix("long long", FALSE, 64, -3, "ulong", FALSE),
+     FEnumFix("signed char", FALSE, 64, -3, "ulong", FALSE), FEnumFix("signed char", FALSE, 7, 0, "int", FALSE), FEnumFix("signed char", TRUE, 7, 1, "int", FALSE),
+     FEnumFix("signed char", FALSE, 8, -1, "int", FALSE), FEnumFix("short", FALSE, 15, 0, "int", FALSE), FEnumFix("short", TRUE, 15, 1, "int", FALSE),
+     FEnumFix("short", FALSE, 64, -1, "ulong", FALSE), FEnumFix("unsigned char", FALSE, 8, 0, "int", FALSE), FEnumFix("unsigned char", TRUE, 0, 0, "int", FALSE),
+     FEnumFix("unsigned char", FALSE, 64, -1, "ulong", FALSE), FEnumFix("unsigned", TRUE, 0, 0, "int", FALSE), FEnumFix("unsigned", FALSE, 32, 0, "long", FALSE),
+     FEnumFix("unsigned", FALSE, 32, 0, "ulong", FALSE), FEnumFix("unsigned", TRUE, 0, 0, "long", FALSE), FEnumFix("unsigned", FALSE, 63, 0, "ulong", TRUE)},
   R_enum_range |-> {FEnum(<<En("ZA", "max_u64"), En("ZB", "")>>), FEnum(<<En("ZA", "max_i64"), En("ZB", "")>>), FEnum(<<En("ZA", "-1"), En("ZB", "max_u64")>>)},
   R_dup_enumerator |-> {FEnum(<<En("ZA", ""), En("ZA", "")>>), FEnum(<<En("ZA", "3"), En("ZB", ""), En("ZA", "9")>>)},
   R_empty_declaration |-> {FMisc("toplevel_semi")},
@@ -730,6 +751,13 @@ BenignFrags == {
   FCInit(FCond("k1", "kpi", "kv")), FCInit(FCond("k1", "k0", "kpc")),
   FAsg("=", "gfp", "kv"), FAsg("=", "gp", "kpi"), FAsg("=", "gq", "kv"), FCall("gvar", <<"gi", "gi">>), FCall("gvar", <<"gi", "gi", "gd">>),
   FCall("gvar", <<"gi", "gi", "gp">>), FUn("neg", "gcbf"),
+  FEnumFix("int", FALSE, 31, -1, "int", FALSE), FEnumFix("int", TRUE, 31, 0, "long", FALSE), FEnumFix("int", FALSE, -1, 0, "int", FALSE),
+  FEnumFix("int", FALSE, 31, -1, "unsigned", FALSE), FEnumFix("int", FALSE, 31, -1, "ulong", TRUE), FEnumFix("long", FALSE, 63, -1, "long", FALSE),
+  FEnumFix("long", FALSE, 63, -1, "ulong", FALSE), FEnumFix("long", FALSE, -1, 0, "int", TRUE), FEnumFix("long long", FALSE, 63, -1, "ulong", FALSE),
+  FEnumFix("long long", TRUE, 32, 1, "long", FALSE), FEnumFix("signed char", FALSE, 7, -1, "int", FALSE), FEnumFix("signed char", TRUE, 7, 0, "int", FALSE),
+  FEnumFix("short", FALSE, 15, -1, "int", FALSE), FEnumFix("short", TRUE, 15, 0, "long", FALSE), FEnumFix("unsigned char", FALSE, 8, -1, "int", FALSE),
+  FEnumFix("unsigned char", FALSE, 8, -1, "ulong", FALSE), FEnumFix("unsigned char", FALSE, -1, 0, "int", FALSE), FEnumFix("unsigned", FALSE, 32, -1, "unsigned", FALSE),
+  FEnumFix("unsigned", FALSE, 32, -1, "long", FALSE), FEnumFix("unsigned", FALSE, 32, -1, "ulong", FALSE), FEnumFix("unsigned", FALSE, 31, 0, "ulong", TRUE),
   FUse("gi"), FUse("ek"), FBin("+", "gp", "gi"), FBin("+", "gi", "gq"), FBin("-", "gp", "gcp"), FBin("-", "gq", "gi"), FBin("==", "gp", "k0"),
   FBin("!=", "gv", "gp"), FBin("==", "gfp", "gfp"), FBin("<", "gp", "gcp"), FBin(">=", "gv", "gv"), FBin("<=", "gip", "gip"), FBin("&", "gi", "k0"),
   FBin("%", "gi", "gi"), FBin("<<", "gi", "k0"), FBin("&&", "gp", "gd"), FBin("||", "gfp", "gi"), FBin("*", "gd", "gi"), FBin("/", "gi", "gd"),
@@ -932,6 +960,7 @@ Violate_R_extern_init_block(p) == Violate("R_extern_init_block", p)
 Violate_R_tag_kind(p) == Violate("R_tag_kind", p)
 Violate_R_tag_redefinition(p) == Violate("R_tag_redefinition", p)
 Violate_R_enum_nonconst(p) == Violate("R_enum_nonconst", p)
+Violate_R_enum_fixed_range(p) == Violate("R_enum_fixed_range", p)
 Violate_R_enum_range(p) == Violate("R_enum_range", p)
 Violate_R_dup_enumerator(p) == Violate("R_dup_enumerator", p)
 Violate_R_empty_declaration(p) == Violate("R_empty_declaration", p)
@@ -1076,6 +1105,7 @@ NamedViolate(p) ==
   \/ Violate_R_tag_kind(p)
   \/ Violate_R_tag_redefinition(p)
   \/ Violate_R_enum_nonconst(p)
+  \/ Violate_R_enum_fixed_range(p)
   \/ Violate_R_enum_range(p)
   \/ Violate_R_dup_enumerator(p)
   \/ Violate_R_empty_declaration(p)
@@ -1135,6 +1165,7 @@ SubOf(f) == CASE f.form = "bin" -> (IF f.l \in EntNames /\ f.r \in EntNames /\ N
               [] f.form = "dir" -> (IF f.va # "none" THEN f.va ELSE f.d)
               [] f.form = "drop" -> (IF f.with = "" THEN f.tok ELSE f.with)
               [] f.form = "cinit" -> SubOf(f.of)
+              [] f.form = "enumfix" -> f.ub
               [] OTHER -> f.form
 
 (* One invariant evaluates the rules once per state and does three things:                 *)
